@@ -73,6 +73,14 @@ pub struct VecBlockWriter {
     buffer: Vec<u8>,
 }
 
+#[cfg(mrecordlog_verif)]
+impl VecBlockWriter {
+    /// The bytes written so far (verification hook).
+    pub fn verif_written(&self) -> &[u8] {
+        &self.buffer[..self.cursor]
+    }
+}
+
 fn ceil_to_block(len: usize) -> usize {
     BLOCK_NUM_BYTES * ((len + BLOCK_NUM_BYTES - 1) / BLOCK_NUM_BYTES)
 }
